@@ -10,6 +10,7 @@ import json
 from struct import pack
 from typing import ClassVar
 
+from exabgp.bgp.message.notification import Notify
 from exabgp.bgp.message.update.attribute.sr.srv6.sidinformation import Srv6SidInformation
 from exabgp.util.types import Buffer
 
@@ -84,7 +85,8 @@ class Srv6SidStructure:
 
     @classmethod
     def unpack_attribute(cls, data: Buffer, length: int) -> Srv6SidStructure:
-        # Validation happens in __init__
+        if len(data) < cls.LENGTH:
+            raise Notify(3, 5, f'Invalid SRv6 SID Structure size. Should be {cls.LENGTH} but {len(data)} received')
         return cls(data[: cls.LENGTH])
 
     def pack_tlv(self) -> bytes:
